@@ -299,7 +299,7 @@ def sib5(ctx, pid):
         for ev in st.events:
             if ev.k == "call" and ev.a == "ok":
                 tg = ctx.R.resolve_call(ev.node, f, count=False)[0]
-                if tg.kind == "cmeth" and tg.meth == "append" and isinstance(tg.recv, ast.Name) and tg.recv.id == pu:
+                if tg.kind == "cmeth" and tg.meth == "append" and isinstance(tg.recv, ast.Name) and (tg.recv.id == pu or (pu is not None and st.env.get(tg.recv.id) is not None and st.env.get(tg.recv.id) == st.env.get(pu))):
                     apps.add(eng.ev(ev.node.args[0], f, st))
     # the leaf that is written is the given value itself
     leafs = set()
@@ -310,7 +310,7 @@ def sib5(ctx, pid):
         for ev in st.events:
             if ev.k == "call" and ev.a == "ok":
                 tg = ctx.R.resolve_call(ev.node, f, count=False)[0]
-                if tg.kind == "cmeth" and tg.meth == "append" and isinstance(tg.recv, ast.Name) and tg.recv.id == pu and first is None:
+                if tg.kind == "cmeth" and tg.meth == "append" and isinstance(tg.recv, ast.Name) and (tg.recv.id == pu or (pu is not None and st.env.get(tg.recv.id) is not None and st.env.get(tg.recv.id) == st.env.get(pu))) and first is None:
                     first = eng.ev(ev.node.args[0], f, st)
         if first is not None:
             leafs.add(first)
